@@ -30,6 +30,8 @@ EXTRA = {
     'starimport_end': None,    # a star import as the last statement
     'twoblocks': None,         # a second Example block in the same docstring + a function named f_1
     'method': None,            # a class K with a method m + a function named K_m
+    'latecomment': None,       # a second doctest with a later comment that starts like a force-disable marker
+    'afterword': None,         # a second, freeform doctest under prose that ends in the word "subscript"
 }
 
 
@@ -105,6 +107,14 @@ class DumpSpec(c01.ProgSpec):
             src += ('\n\nclass K:\n    def m(self):\n        """\n        Example:\n            >>> zz = 4\n        """\n'
                     '\n\ndef K_m():\n    """\n    Example:\n        >>> zz = 5\n    """\n')
             n_enabled = 3
+        elif extra == 'latecomment':
+            src += ('\n\ndef g():\n    """\n    Example:\n        >>> zz = 1\n        >>> # Failing inputs are handled below\n'
+                    '        >>> # script authors: see above\n        >>> print(zz)\n        1\n    """\n')
+            n_enabled = 2
+        elif extra == 'afterword':
+            src += ('\n\ndef g():\n    """\n    The index is written as a subscript\n\n    >>> zz = 1\n    >>> print(zz)\n    1\n    """\n')
+            n_enabled = 2
+        style = 'auto' if extra == 'afterword' else 'google'
         case = {'module': src}
         atoms = []
         nontrivial = len(b['stmts']) >= 2 or bool(b['wants'])
@@ -117,7 +127,7 @@ class DumpSpec(c01.ProgSpec):
             try:
                 with contextlib.redirect_stdout(buf), warnings.catch_warnings():
                     warnings.simplefilter('ignore')
-                    runner.doctest_module(p, 'dump', argv=[], style='google', verbose=0)
+                    runner.doctest_module(p, 'dump', argv=[], style=style, verbose=0)
             except BaseException as ex:
                 if type(ex).__name__ == 'CaseTimeout':
                     raise
@@ -198,4 +208,4 @@ def _inside_async(tree, node):
 def specs(tier):
     if tier == 'thorough':
         return [DumpSpec('dump-len2', 2, 99), DumpSpec('dump-len3', 3, 4, min_items=3)]
-    return [DumpSpec('dump-len2', 2, 4), DumpSpec('dump-len3', 3, 2, min_items=3)]
+    return [DumpSpec('dump-len2', 2, 3), DumpSpec('dump-len3', 3, 2, min_items=3)]
